@@ -139,4 +139,54 @@ theorem exported_setitem_graph_correct (env : List (Tensor Int)) (x upd : TG) (I
 example : ((setitemGraph (.inp 0) (.inp 1) 2 [.sl 1 int64Max 1, .sl int64Max int64Min (-1)]).eval
     [constT [2, 3] [0, 1, 2, 3, 4, 5], constT [3] [10, 11, 12]]).toFlat = [0, 1, 2, 12, 11, 10] := by decide
 
+/-- The normalised form of an index with one ellipsis is the normalised form of its expansion. -/
+theorem normaliseIndex_ellipsis (rank : Nat) (pre post : List Ix) (sh : List Nat) (hr : sh.length = rank)
+    (hpre : ∀ e ∈ pre, e ≠ .ellipsis) (hpost : ∀ e ∈ post, e ≠ .ellipsis)
+    (h : AdmissibleN (expandEllipsis rank pre post) sh) :
+    normaliseIndex rank (pre ++ .ellipsis :: post) = .ok ((expandEllipsis rank pre post).map normE) := by
+  obtain ⟨hc, _⟩ := ellipsis_expansion rank pre post hpre hpost
+  obtain ⟨hent, _, _⟩ := admN_facts _ sh h
+  have hne : (expandEllipsis rank pre post).any isEllipsis = false := by
+    rw [List.any_eq_false]
+    intro e he'
+    rcases hent e he' with ⟨i, rfl⟩ | ⟨a, b, c, rfl⟩ | rfl <;> simp [isEllipsis]
+  have hsame : normaliseIndex rank (pre ++ .ellipsis :: post) = normaliseIndex rank (expandEllipsis rank pre post) := by
+    simp only [normaliseIndex, hc]
+    simp only [constructIndex, hne, Bool.false_eq_true, if_false]
+  rw [hsame]
+  exact normaliseIndex_admN rank _ sh hr h
+
+/-- **C09, assignment with an ellipsis, exported graph.**  `x[pre…, ..., post…] = v`: the index normalises to the expansion
+of the ellipsis (so the exported term is `setitemGraph` of that expansion), and the graph writes the broadcast update at
+exactly the positions NumPy's `x[pre…, ..., post…]` selects, leaving every other element untouched. -/
+theorem exported_setitem_graph_ellipsis (env : List (Tensor Int)) (x upd : TG) (pre post : List Ix) (T U : Tensor Int)
+    (hT : x.eval env = T) (hU : upd.eval env = U)
+    (hpre : ∀ e ∈ pre, e ≠ .ellipsis) (hpost : ∀ e ∈ post, e ≠ .ellipsis)
+    (h : AdmissibleN (expandEllipsis T.rank pre post) T.shape) (hr : T.rank ≠ 0)
+    (hb : bshape U.shape (Spec.getitem (coords T.shape) (pre ++ .ellipsis :: post)).shape
+        = some (Spec.getitem (coords T.shape) (pre ++ .ellipsis :: post)).shape) :
+    normaliseIndex T.rank (pre ++ .ellipsis :: post) = .ok ((expandEllipsis T.rank pre post).map normE) ∧
+    ((setitemGraph x upd T.rank ((expandEllipsis T.rank pre post).map normE)).eval env).shape = T.shape ∧
+    (∀ o, InRange (Spec.getitem (coords T.shape) (pre ++ .ellipsis :: post)).shape o →
+      ((setitemGraph x upd T.rank ((expandEllipsis T.rank pre post).map normE)).eval env).get
+          ((Spec.getitem (coords T.shape) (pre ++ .ellipsis :: post)).get o)
+        = (expandTo U (Spec.getitem (coords T.shape) (pre ++ .ellipsis :: post)).shape).get o) ∧
+    (∀ p, InRange T.shape p →
+      (∀ o, InRange (Spec.getitem (coords T.shape) (pre ++ .ellipsis :: post)).shape o →
+        (Spec.getitem (coords T.shape) (pre ++ .ellipsis :: post)).get o ≠ p) →
+      ((setitemGraph x upd T.rank ((expandEllipsis T.rank pre post).map normE)).eval env).get p = T.get p) := by
+  have hs : Spec.getitem (coords T.shape) (pre ++ .ellipsis :: post)
+      = Spec.getitem (coords T.shape) (expandEllipsis T.rank pre post) := by
+    obtain ⟨_, he⟩ := ellipsis_expansion T.rank pre post hpre hpost
+    obtain ⟨hent', _, _⟩ := admN_facts _ T.shape h
+    have hnoE : ∀ e ∈ expandEllipsis T.rank pre post, e ≠ .ellipsis := by
+      intro e he'
+      rcases hent' e he' with ⟨i, rfl⟩ | ⟨a, b, c, rfl⟩ | rfl <;> simp
+    have hrk : (coords T.shape).rank = T.rank := rfl
+    simp only [Spec.getitem, hrk, he, expand_noEllipsis T.rank _ hnoE]
+  rw [hs] at hb ⊢
+  exact ⟨normaliseIndex_ellipsis T.rank pre post T.shape rfl hpre hpost h,
+    exported_setitem_graph_correct env x upd _ T U hT hU h hr hb⟩
+
+
 end Ndx.TGraph
